@@ -105,11 +105,19 @@ func H_Commit() {
 	amt := vrf.Int("amt")
 	vrf.Assume(amt.IsPositive())
 	lockUntil := vrf.U64("lockUntil", 0, maxT)
+	locked0 := s.stillLocked()
 	err := s.env.Comm.CommitLiquidTokens(s.env.Ctx, alice, share, amt, lockUntil)
 	if err != nil {
 		return
 	}
 	vrf.Cover("commit-ok")
+	// a commit with a lock time in the future puts exactly its amount under lock (also when an earlier
+	// lock-up of the account has the very same unlock time); every other lock-up is kept
+	if lockUntil > uint64(s.now) {
+		vrf.Assert(s.stillLocked().Equal(locked0.Add(amt)), "C12 commit: a time-locked commit adds exactly its amount to the account's locked tokens")
+	} else {
+		vrf.Assert(s.stillLocked().Equal(locked0), "C12 commit: an unlocked commit leaves the account's locked tokens unchanged")
+	}
 	p := s.env.Comm.GetParams(s.env.Ctx)
 	vrf.Assert(s.committed().Equal(s.a.Add(amt)), "C12 commit: account's committed amount grows by the amount")
 	vrf.Assert(p.TotalCommitted.AmountOf(share).Equal(s.committed().Add(s.rest)), "C12 commit: TotalCommitted == sum of committed amounts")
